@@ -25,6 +25,7 @@ func ttlValues(now time.Time) []interface{} {
 		primitive.DateTime(1000), dt(now.Add(-48 * time.Hour)), dt(now.Add(-2 * time.Hour)), dt(now.Add(-30 * time.Minute)), dt(now.Add(30 * time.Minute)),
 		primitive.DateTime(4102444800000), int32(5), int64(1000), float64(1.5), "2001-01-01", nil, true, primitive.Timestamp{T: 5, I: 1},
 		bson.A{primitive.DateTime(1000), int32(1)}, bson.A{dt(now.Add(time.Hour)), "x"}, bson.A{int32(1), int32(2)}, bson.A{}, bson.A{dt(now.Add(time.Hour)), dt(now.Add(-72 * time.Hour))},
+		bson.A{dt(now.Add(-72 * time.Hour)), dt(now.Add(-72 * time.Hour))}, bson.A{dt(now.Add(time.Hour)), dt(now.Add(time.Hour)), int32(1), int32(1)},
 		bson.D{{Key: "d", Value: primitive.DateTime(1000)}}, "missing",
 	}
 }
@@ -56,6 +57,36 @@ func (e *Env) ExpirePass() {
 		return
 	}
 	e.recordExpire(pre, evsBefore, now, dirty, "pass")
+}
+
+// AbandonedPass runs Transaction.Expire and then gives the transaction up (abort, or a commit that the store
+// rejects): nothing may have changed, and the documents are still there for the next pass to remove and log.
+func (e *Env) AbandonedPass(failCommit bool) {
+	pre, evsBefore, _ := e.Obs(nil)
+	now := time.Now()
+	txn, err := e.Engine.Begin(e.Ctx, true)
+	if err != nil {
+		e.finding("expire", "Begin failed: "+err.Error(), nil)
+		return
+	}
+	if err = txn.Expire(); err != nil {
+		e.Engine.Abort(txn)
+		e.finding("expire", "Expire failed: "+err.Error(), nil)
+		return
+	}
+	via := "aborted"
+	if failCommit && e.Flaky != nil {
+		via = "rejected-commit"
+		e.Flaky.FailNext = true
+		err = e.Engine.Commit(txn)
+		e.Flaky.FailNext = false
+		if err == nil {
+			via = "pass" // nothing was dirty, the store was not asked: an ordinary pass
+		}
+	} else {
+		e.Engine.Abort(txn)
+	}
+	e.recordExpire(pre, evsBefore, now, false, via)
 }
 
 func (e *Env) recordExpire(pre V, evsBefore []interface{}, now time.Time, dirty bool, via string) {
@@ -123,6 +154,10 @@ func TTLScenarios(mk func() *Env, each func(e *Env), fileDir string) int {
 			}
 			if e.Path != "" {
 				e.Reopen()
+			}
+			if e.Path == "" {
+				e.AbandonedPass(false)
+				e.AbandonedPass(true)
 			}
 			e.ExpirePass()
 			e.ExpirePass() // nothing left to expire: must change nothing
